@@ -44,9 +44,9 @@ func init() {
 		Bounds: func(thorough bool) map[string]string {
 			if thorough {
 				return map[string]string{
-					"Parse sources":  "(a) every string of length 0..6 over the alphabet {':','1','a',' ','#',CR,LF} chosen by the solver; (b) 1..3 lines from 7 templates (good, bad, empty, comment, CR-terminated) with every terminator combination (LF, CRLF, none)",
-					"reader":         "chunk size 1, 2, 3, 5 or everything; two (0,nil) reads before the 1st..3rd data read or never; EOF with the last data or separately; with and without a source name; destination Set or HandleSet; scan buffer of capacity 4 (growth exercised)",
-					"storage":        "1..4 Add calls, records with 0..2 names of one symbolic letter [a-cA-C], addresses from a pool of two symbolic IPv4 and one symbolic IPv6 address; ByName queried in both letter cases",
+					"Parse sources": "(a) every string of length 0..6 over the alphabet {':','1','a',' ','#',CR,LF} chosen by the solver; (b) 1..3 lines from 7 templates (good, bad, empty, comment, CR-terminated) with every terminator combination (LF, CRLF, none)",
+					"reader":        "chunk size 1, 2, 3, 5 or everything; two (0,nil) reads before the 1st..3rd data read or never; EOF with the last data or separately; with and without a source name; destination Set or HandleSet; scan buffer of capacity 4 (growth exercised)",
+					"storage":       "1..4 Add calls, records with 0..2 names of one symbolic letter [a-cA-C], addresses from a pool of two symbolic IPv4 and one symbolic IPv6 address; ByName queried in both letter cases",
 				}
 			}
 			return map[string]string{
